@@ -20,6 +20,7 @@ func TestRegress(t *testing.T) {
 		t.Skip("VERIF_REGRESS not set")
 	}
 	col := stats.New(pid)
+	col.Exhaustive = true // every committed witness is replayed: neutral for the merged "exhaustive" flag
 	defer col.Flush()
 	files, _ := filepath.Glob(filepath.Join(verifRoot(), "witnesses", pid, "*.json"))
 	sort.Strings(files)
